@@ -1523,11 +1523,15 @@ def gen_exit_do(node, code, codegen):
 def gen_for_block(node, code, codegen):
     var_type = node.var.type
     type_char = var_type.type_char
-    base_var = node.var.get_base_variable()
-    if base_var.is_global:
-        scope = 'g'  # global
-    else:
-        scope = 'l'  # local
+
+    # the counter is read and written like any other lvalue: it may be
+    # a by-reference parameter (its slot holds a reference), a global,
+    # an array element or a record field.
+    def read_counter():
+        codegen.gen_code_for_node(node.var, code)
+
+    def write_counter():
+        gen_lvalue_write(node.var, code, codegen)
 
     init_label = codegen.get_label('for_init')
     check_label = codegen.get_label('for_check')
@@ -1545,8 +1549,6 @@ def gen_for_block(node, code, codegen):
     node.parent_routine.local_vars[step_var] = var_type
     node.parent_routine.local_vars[step_sign_var] = var_type
     node.parent_routine.local_vars[to_var] = var_type
-
-    var = node.var.get_base_variable()
 
     code.add(('_label', init_label))
     if node.step_expr:
@@ -1567,7 +1569,7 @@ def gen_for_block(node, code, codegen):
         )
     codegen.gen_code_for_node(node.from_expr, code)
     gen_code_for_conv(var_type, node.from_expr, code, codegen)
-    code.add((f'store{scope}', var.name))
+    write_counter()
     codegen.gen_code_for_node(node.to_expr, code)
     gen_code_for_conv(var_type, node.to_expr, code, codegen)
     code.add(('storel', to_var))
@@ -1575,9 +1577,9 @@ def gen_for_block(node, code, codegen):
     # make sure the range is compatible with the step value (by
     # checking if (to - from) has the same sign as step value). if
     # not, skip the loop.
+    code.add((f'readl{type_char}', to_var))
+    read_counter()
     code.add(
-        (f'readl{type_char}', to_var),
-        (f'read{scope}{type_char}', var.name),
         ('sub',),
         (f'readl{type_char}', step_sign_var),
         ('mul',),
@@ -1597,8 +1599,8 @@ def gen_for_block(node, code, codegen):
     )
 
     code.add(('_label', check_label))
+    read_counter()
     code.add(
-        (f'read{scope}{type_char}', var.name),
         (f'readl{type_char}', step_sign_var),
         ('mul',),
         (f'readl{type_char}', to_var),
@@ -1610,14 +1612,14 @@ def gen_for_block(node, code, codegen):
     code.add(('_label', body_label))
     gen_code_for_block(node.body, code, codegen)
 
+    code.add(('_label', next_label))
+    read_counter()
     code.add(
-        ('_label', next_label),
-        (f'read{scope}{type_char}', var.name),
         (f'readl{type_char}', step_var),
         ('add',),
-        (f'store{scope}', var.name),
-        ('jmp', check_label),
     )
+    write_counter()
+    code.add(('jmp', check_label))
 
     code.add(('_label', end_label))
 
